@@ -14,9 +14,9 @@ ROOT = os.path.dirname(os.path.dirname(os.path.abspath(__file__)))
 class Mpsc:
     """mirror of Chan/ModelMpsc.v `step` (same branch structure)"""
 
-    def __init__(self, cap, progs, spurious=False, cancel=False, fixed=False):
-        # fixed=True: behaviour with fixes/C16_wake_all_senders.diff applied (used only to
-        # validate the proposed repair by hand, never by the check itself)
+    def __init__(self, cap, progs, spurious=False, cancel=False, fixed=True):
+        # fixed=True (default): the code since /repo commit 904d17adb85 (wake_sender wakes every
+        # registered sender); fixed=False: the code before it (one waker popped per recv)
         self.cap, self.spurious, self.cancel, self.fixed = cap, spurious, cancel, fixed
         self.buf, self.sw, self.rw = [], [], False
         self.rx, self.rx_woken, self.rx_done = "open", True, False
